@@ -19,7 +19,6 @@ import (
 	"fmt"
 	"math"
 	"os"
-	"runtime/pprof"
 	"sort"
 	"strconv"
 	"strings"
@@ -95,8 +94,8 @@ type rec struct {
 }
 
 type config struct {
-	name string
-	ops  []opDef
+	name     string
+	ops      []opDef
 	lockstep bool // a replica that applies every request right after the primary and is never reopened
 	cold     bool // a replica that is closed and reopened before every request
 	nQuick   int  // the quick tier searches the first nQuick operations of the alphabet (0 = all)
@@ -133,12 +132,12 @@ func (in *inst) oracles(withGuards bool) *ev.Violation {
 }
 
 type inst struct {
-	cfg         *config
-	db          kv.DB    // live leader (never reopened, trimmed)
-	stores      []*store // primary[, lock-step replica][, reopened replica]
-	cold        *store
-	clock       *time2.MockedClock
-	now         int64
+	cfg    *config
+	db     kv.DB    // live leader (never reopened, trimmed)
+	stores []*store // primary[, lock-step replica][, reopened replica]
+	cold   *store
+	clock  *time2.MockedClock
+	now    int64
 
 	// the log: every request handed to ProcessWrite, applied or refused
 	log     []*proto.WriteRequest
@@ -150,7 +149,7 @@ type inst struct {
 	recs     map[string]rec
 	verNext  int64
 	sessLive bool
-	sessId   int64 // last created session id, -1 if none
+	sessId   int64    // last created session id, -1 if none
 	batches  []string // validated rendering of the batch of every applied request ("REFUSED …" for a refused one)
 	ts       []int64
 	present  []bool // batch still stored on the primary (never for a refused request)
@@ -1193,11 +1192,6 @@ func main() {
 	if *replay != "" {
 		os.Exit(doReplay(*replay))
 	}
-	if pf := os.Getenv("VERIF_CPUPROFILE"); pf != "" {
-		f, _ := os.Create(pf)
-		pprof.StartCPUProfile(f)
-		defer pprof.StopCPUProfile()
-	}
 	run := ev.NewRun("C17", "model_checking")
 	// per alphabet: depth and the share of the wall-clock budget (the search that is cut says exhaustive:false)
 	depth := map[*config]int{cfgRefusal: 4, cfgSeq: 4}
@@ -1281,7 +1275,7 @@ func main() {
 	run.Sample(map[string]any{"history": []string{"delete(b)"}, "expected_batches": []string{"{} (empty batch at offset 0)"}})
 	run.Sample(map[string]any{"history": []string{"seqPut(s,[1,1])", "put(a)+seqPut(s,[1])", "put(b)"},
 		"expected_batches": []string{"{s-…01-…01: KEY_CREATED v0}", "none: refused as a whole (missing sequence deltas) after put(a) was processed", "{b: KEY_CREATED v1}"},
-		"on": "live DB, lock-step replica, replica reopened before every request"})
+		"on":               "live DB, lock-step replica, replica reopened before every request"})
 	run.Assume = []string{
 		"stage 1 is sequential: every request handed to ProcessWrite is in the committed log (uncommitted requests and subscriber/writer races are stage 2)",
 		"a request that ProcessWrite refuses as a whole with an error for which kv.IsInvalidRequestError holds (the leader answers the client with the error, every replica skips the entry) is not a committed change: its offset has no batch and nothing of it may show up in a later batch",
@@ -1290,9 +1284,7 @@ func main() {
 		"a batch is 'within the retention time' while timestamp > now - retention; older batches may or may not still be delivered",
 		"when one request writes and then removes the same key, or removes a key more than once, the batch must leave a consumer with the right final picture (removed keys reported deleted or covered by a reported range; surviving keys reported with their final version)",
 	}
-	rc := run.Finish("two BFS searches over all histories up to max_depth. (1) alphabet 'db+replica': puts/deletes/range deletes on {a,b,a/b}, composite requests, session create / ephemeral put / session cleanup request, empty-effect requests, 3 kinds of trimming round. (2) alphabet 'refusals': multi-operation requests on {a,b} and the sequence prefix s, among them requests that are refused as a whole at apply time after some operations were processed (missing sequence deltas, invalid existing sequence key, sequence overflow, zero delta), range delete of the sequence, 2 kinds of trimming round; a third replica is reopened before every request and applies the trailing refused entries again. After every step: content oracle on the new batch against a map model (no batch for a refused request), then a subscriber from every start offset on every replica (order, completeness within retention, stable and identical content, no internal keys, nothing for refused requests)")
-	pprof.StopCPUProfile()
-	os.Exit(rc)
+	os.Exit(run.Finish("two BFS searches over all histories up to max_depth. (1) alphabet 'db+replica': puts/deletes/range deletes on {a,b,a/b}, composite requests, session create / ephemeral put / session cleanup request, empty-effect requests, 3 kinds of trimming round. (2) alphabet 'refusals': multi-operation requests on {a,b} and the sequence prefix s, among them requests that are refused as a whole at apply time after some operations were processed (missing sequence deltas, invalid existing sequence key, sequence overflow, zero delta), range delete of the sequence, 2 kinds of trimming round; a third replica is reopened before every request and applies the trailing refused entries again. After every step: content oracle on the new batch against a map model (no batch for a refused request), then a subscriber from every start offset on every replica (order, completeness within retention, stable and identical content, no internal keys, nothing for refused requests)"))
 }
 
 func doReplay(path string) int {
